@@ -327,8 +327,13 @@ def run_case(chk, xvc, name, case):
         stage.cleanup()
         shutil.rmtree(base, ignore_errors=True)
     msgs = []
+    panicked = [k for k, v in runs.items() if v['rc'] == 101]
     for other in ('B', 'C'):
         if other not in runs or 'A' not in runs:
+            continue
+        if 'A' in panicked and other in panicked:
+            # the command panics from everywhere (e.g. untrack of a glob that matches a recorded directory): what is
+            # left behind depends on which worker threads got how far, not on the directory the command was run in
             continue
         d = diff_abs(runs['A']['abs'], runs[other]['abs'])
         for k, dd in d:
@@ -338,7 +343,7 @@ def run_case(chk, xvc, name, case):
         if case['family'] == 'list' and runs['A']['abs']['list'] != runs[other]['abs']['list']:
             la, lb = runs['A']['abs']['list'], runs[other]['abs']['list']
             msgs.append(f"list rows differ ({other}): only at root {[r for r in la if r not in lb][:4]}, only from {runs[other]['cwd']} {[r for r in lb if r not in la][:4]}")
-    return {'case': case, 'pre': pre, 'runs': runs, 'oracle': msgs}
+    return {'case': case, 'pre': pre, 'runs': runs, 'oracle': msgs, 'all_panicked': len(panicked) == len(runs)}
 
 
 def touched(pre, post, family):
@@ -562,6 +567,8 @@ def run(chk: Check):
         c = r['case']
         if 'A' in r['runs'] and touched(r['pre'], r['runs']['A']['abs'], c['family']):
             chk.nontrivial.add(hashlib.sha1(json.dumps(c, sort_keys=True).encode()).hexdigest())
+        if r['all_panicked']:
+            chk.count('panics-from-every-directory:' + c['family'])
         if r['oracle']:
             st['failing'] += 1
             first.setdefault(json.dumps(signature(c, r['oracle']), sort_keys=True), r)
@@ -573,7 +580,7 @@ def run(chk: Check):
         chk.oracle_failure(small['oracle'][0][:600], small['case'], describe(small), signature=signature(small['case'], small['oracle']))
     # tie
     if have_model:
-        ok = [r for r in results if not r['oracle']]
+        ok = [r for r in results if not r['oracle'] and not r['all_panicked']]
         sels = model_select(model, [model_request(r) for r in ok])
         ts = chk.tie['streams'].setdefault('model_selection', {'cases': 0, 'disagreements': 0})
         if sels is None:
